@@ -441,18 +441,41 @@ Proof.
     rewrite E. cbn [bind]. apply IH.
 Qed.
 
-Lemma array_parts_w_den bs poses items : Forall2 (den bs) poses items ->
-  array_parts_w bs poses = Ok (map word items, flat_map payload items).
+(* the loop of build_scalar_array: entry slots patched one by one, payloads appended behind *)
+Lemma array_loop_w_den bs poses items : Forall2 (den bs) poses items ->
+  forall pre dw dp,
+    array_loop_w bs poses (pre ++ dw ++ repeat 0 (4 * length poses) ++ dp) (length (pre ++ dw))
+    = Ok (pre ++ dw ++ flat_map be32 (map word items) ++ dp ++ flat_map payload items).
 Proof.
-  induction 1 as [|pos x poses items D HF IH]; cbn [array_parts_w map flat_map]; [reflexivity|].
-  destruct D as (Hw & Hn & Hm). pose proof (wfb_size x Hw) as Hs. destruct pos as [off len|ty off len].
-  - destruct Hm as (Hc & Hp & ->). rewrite (placed_slice bs x off Hp), IH. cbn [bind].
-    replace CONTAINER_TAG with (tag_of x) by (destruct x; try discriminate Hc; reflexivity).
-    rewrite (scalar_entry_word x Hs). reflexivity.
-  - destruct Hm as (Hc & -> & Hp & ->). rewrite (scalar_entry_word x Hs).
-    assert (E : (if 0 <? lenN (payload x) then slice_p bs off (lenN (payload x)) else Ok []) = Ok (payload x)).
-    { destruct (0 <? lenN (payload x)) eqn:E0; [apply (placed_slice bs x off Hp)|rewrite (empty_payload _ E0); reflexivity]. }
-    rewrite E, IH. reflexivity.
+  induction 1 as [|pos x poses items D HF IH]; intros pre dw dp.
+  - cbn [array_loop_w length repeat map flat_map app]. rewrite Nat.mul_0_r. cbn [repeat app]. rewrite app_nil_r. reflexivity.
+  - destruct D as (Hw & Hn & Hm). pose proof (wfb_size x Hw) as Hs. cbn [array_loop_w].
+    assert (E : match pos with
+                | PosC off len => do p <- slice_p bs off len; Ok ((pre ++ dw ++ repeat 0 (4 * length (pos :: poses)) ++ dp) ++ p, N.lor CONTAINER_TAG (u32 len))
+                | PosS ty off len => do p <- (if 0 <? len then slice_p bs off len else Ok []); Ok ((pre ++ dw ++ repeat 0 (4 * length (pos :: poses)) ++ dp) ++ p, N.lor ty (u32 len))
+                end = Ok ((pre ++ dw ++ repeat 0 (4 * length (pos :: poses)) ++ dp) ++ payload x, word x)).
+    { destruct pos as [off len|ty off len].
+      - destruct Hm as (Hc & Hp & ->). rewrite (placed_slice bs x off Hp). cbn [bind].
+        replace CONTAINER_TAG with (tag_of x) by (destruct x; try discriminate Hc; reflexivity).
+        rewrite (scalar_entry_word x Hs). reflexivity.
+      - destruct Hm as (Hc & -> & Hp & ->). rewrite (scalar_entry_word x Hs).
+        assert (E : (if 0 <? lenN (payload x) then slice_p bs off (lenN (payload x)) else Ok []) = Ok (payload x)).
+        { destruct (0 <? lenN (payload x)) eqn:E0; [apply (placed_slice bs x off Hp)|rewrite (empty_payload _ E0); reflexivity]. }
+        rewrite E. reflexivity. }
+    rewrite E. cbn [bind]. clear E.
+    replace (4 * length (pos :: poses))%nat with (4 + 4 * length poses)%nat by (cbn [length]; lia).
+    rewrite repeat_app.
+    replace ((pre ++ dw ++ (repeat 0 4 ++ repeat 0 (4 * length poses)) ++ dp) ++ payload x)
+      with ((pre ++ dw) ++ repeat 0 4 ++ (repeat 0 (4 * length poses) ++ dp ++ payload x))
+      by (repeat rewrite <- app_assoc; reflexivity).
+    rewrite patch_app by reflexivity.
+    specialize (IH pre (dw ++ be32 (word x)) (dp ++ payload x)).
+    replace ((pre ++ dw) ++ be32 (word x) ++ repeat 0 (4 * length poses) ++ dp ++ payload x)
+      with (pre ++ (dw ++ be32 (word x)) ++ repeat 0 (4 * length poses) ++ dp ++ payload x)
+      by (repeat rewrite <- app_assoc; reflexivity).
+    replace (length (pre ++ dw) + 4)%nat with (length (pre ++ dw ++ be32 (word x)))
+      by (rewrite !app_length, be32_len; lia).
+    rewrite IH. cbn [map flat_map]. repeat rewrite <- app_assoc. reflexivity.
 Qed.
 Lemma Forall2_lenN {A B} (R : A -> B -> Prop) l l' : Forall2 R l l' -> lenN l = lenN l'.
 Proof. induction 1 as [|x y l l' _ _ IH]; [reflexivity|]. rewrite !lenN_cons, IH. reflexivity. Qed.
@@ -461,9 +484,11 @@ Proof. induction 1 as [|x y l l' _ _ IH]; [reflexivity|]. rewrite !lenN_cons, IH
 Theorem build_scalar_array_w_den bs poses items : Forall2 (den bs) poses items ->
   forall data, build_scalar_array_w bs poses data = Ok (build_array_items data items).
 Proof.
-  intros HF data. unfold build_scalar_array_w, build_array_items. rewrite (array_parts_w_den bs poses items HF). cbn [bind].
+  intros HF data. unfold build_scalar_array_w, build_array_items.
+  pose proof (array_loop_w_den bs poses items HF (data ++ be32 (N.lor ARRAY_CONTAINER_TAG (u32 (lenN poses)))) [] []) as L.
+  cbn [app] in L. rewrite !app_nil_r in L. rewrite L. cbn [bind].
   change (enc (VArr items)) with (payload (VArr items)). rewrite payload_arr. unfold arr_hdr, header_word.
-  rewrite (Forall2_lenN _ _ _ HF). reflexivity.
+  rewrite (Forall2_lenN _ _ _ HF), <- !app_assoc. reflexivity.
 Qed.
 
 (* ---------------------------------------------------------------- the frontier walks *)
